@@ -408,7 +408,7 @@ def responses(draw, layout, cc_name=None, sessions="any", enc=None, failed=None,
     cc = layout.commands[cc_name]["code"]
     if failed and unknown_cc and ch.chance(1, 4):
         # the (header-only) answer to a command the decoder has no layout for, e.g. TPM_RC_COMMAND_CODE to a vendor command
-        cc = ch.choice([c for c in (0x15A, 0x199, 0x11E, 0x20000001, 0x7FFFFFFF) if c not in layout.cc_by_code])
+        cc = ch.choice([c for c in (0x15A, 0x199, 0x11E, 0x20000001, 0x7FFFFFFF, None) if c not in layout.cc_by_code])
         meta["unknown_cc"] = True
     return Case("Response", toks, layout, cc=cc, enc=meta["encrypt"], meta=meta)
 
@@ -421,16 +421,28 @@ def streams(draw, layout, max_pairs=4, lone_tail=True, big=False, rare=True):
     msgs = []
     names = sorted(layout.commands)
     b = Builder(layout, ch, big, rare)
+    # state carried from pair to pair: in a third of the longer streams the first command asks for an encrypted response
+    # parameter and every later command has no sessions at all but an answer starting with a TPM2B (what the first pair
+    # set up must not reach the later ones)
+    carry = n >= 2 and ch.chance(1, 3)
+    enc_names = [c for c in names if layout.first_param_is_tpm2b(layout.commands[c]["response_params"])]
+    if carry:
+        b.flags.add("stream_enc_then_plain")
     for i in range(n):
-        cc_name = ch.choice(names)
-        ns = _n_sessions(ch, "any")
-        ctoks, cmeta = b.command(cc_name, ns)
+        if carry:
+            cc_name = ch.choice(enc_names)
+            ns = ch.choice([1, 2, 3]) if i == 0 else None
+            ctoks, cmeta = b.command(cc_name, ns, want_encrypt=True if i == 0 else None)
+        else:
+            cc_name = ch.choice(names)
+            ns = _n_sessions(ch, "any")
+            ctoks, cmeta = b.command(cc_name, ns)
         first = len(toks)
         toks += ctoks
         msgs.append({"kind": "Command", "cc_name": cc_name, "cc": layout.commands[cc_name]["code"], "first_token": first, "n_tokens": len(ctoks), "sessions": ns, "encrypt": cmeta["encrypt"], "decrypt": cmeta["decrypt"]})
         if lone_tail and i == n - 1 and ch.chance(1, 6):
             break
-        failed = ch.chance(1, 5)
+        failed = ch.chance(1, 5) if not carry else (i == 0 and ch.chance(1, 3))
         # a successful response mirrors the command's sessions; a failed one is header-only
         rtoks, rmeta = b.response(cc_name, ns if not failed else ch.choice([None, ns]), enc=cmeta["encrypt"], failed=failed)
         if cmeta["encrypt"] and not failed and not rmeta["encrypt"]:
